@@ -232,7 +232,9 @@ impl MeCabOovPlugin {
             }
             for i in 1..=cinfo.length {
                 let sublength = input.char_distance(offset, i as usize);
-                if sublength > llength {
+                // char_distance is clamped at the end of the text: once it stops growing
+                // the candidate of this length has been produced already
+                if sublength > llength || sublength < i as usize {
                     break;
                 }
                 for oov in oovs {
